@@ -51,7 +51,7 @@ def run(ctx):
     ctx.rule("C06.conv", "From<T> for Shape / TryFrom<Shape> for T use the same variant (round trip is the identity); the "
                          "mismatch error is {requested: T::shapetype(), actual: shape.shapetype()}", floor=26)
     ctx.rule("C06.forward", "the typed iterator and random access hand the record reader's result on unchanged: its error (in particular "
-                            "the type-mismatch error) is returned as the item, its shape is the item's payload — no filtering by error kind", floor=3)
+                            "the type-mismatch error) is returned as the item, its shape is the item's payload — no filtering by error kind", floor=2)
     ctx.rule("C06.bulk", "convert_shapes_to_vec_of returns the first conversion error and pushes every converted value in order", floor=2)
 
     vars_ = shape_variants(F)
